@@ -260,6 +260,13 @@ def mulDense (A B : DM) : M DM := do
   let m ← forN row 0 (fun r cm => forN col 0 (fun c cm => mulCell A B col r c cm) cm) C.m
   pure { C with m := m }
 
+/-- mul_dense_dense when the output is the same object as an operand (`&A == &C or &B == &C`):
+    the product is computed into a temporary `tmp` and then assigned, so it equals the plain product.
+    (add / elementwise mul / scalar ops with an aliased output read each entry before writing it.) -/
+def mulDenseAliased (A B : DM) : M DM := do
+  let tmp ← mulDense A B
+  pure tmp
+
 /-- `for (i = 0; i < n; i += step)` -/
 def forStep {σ : Type} (n step : Nat) (body : Nat → σ → M σ) (s : σ) : M σ :=
   forN ((n + step - 1) / step) 0 (fun t s => body (t * step) s) s
